@@ -82,14 +82,16 @@ def power_csv(path, asm_list, length=1.0, n_cells=2, shape=(1.0, 0.5), scale=100
     """asm_list: [(n_ring or 0 for unrodded-only, n_duct)] per assembly (1-based ids in file).
     Linear power per item: scale * (c0 + c1 * zeta), zeta in [-1/2, 1/2] within each power cell."""
     rows = []
-    edges = [length * k / n_cells for k in range(n_cells + 1)]
     for k_, (n_ring, n_duct) in enumerate(asm_list):
         a = ids[k_] if ids is not None else k_ + 1
+        # n_cells may be a list: one axial power mesh per assembly (in the order of the position ids)
+        nc_a = n_cells[k_ % len(n_cells)] if isinstance(n_cells, (list, tuple)) else n_cells
+        edges = [round(length * k / nc_a, 9) for k in range(nc_a + 1)]
         counts = {'pins': n_pins(n_ring), 'duct': n_duct_cells(n_ring) * n_duct, 'cool': n_sc(n_ring)}
         for ci, comp in enumerate(('pins', 'duct', 'cool'), start=1):
             if comp not in components:
                 continue
-            for k in range(n_cells):
+            for k in range(nc_a):
                 for item in range(1, counts[comp] + 1):
                     w = (1.0 + 0.1 * ((item * 7 + a * 3 + k) % 5)) if vary else 1.0
                     f = {'pins': 1.0, 'duct': 0.02, 'cool': 0.01}[comp]
